@@ -32,6 +32,9 @@ type fakeRpc struct {
 	txOutN    int
 	// byTx, when set, answers GetTxOut per transaction id (several watches on one watcher)
 	byTx func(txid string) (*txwatcher.TxOutResp, error)
+	// wantVout, when set: only this output of the watched transaction is unspent; a query for another index of it
+	// gets "no such unspent output" (the wallet has spent its change)
+	wantVout *uint32
 }
 
 func (f *fakeRpc) set(v rpcView) {
@@ -70,8 +73,12 @@ func (f *fakeRpc) GetBlockHash(h uint32) (string, error) {
 	return hashOf(h), nil
 }
 
-func (f *fakeRpc) GetTxOut(txid string, _ uint32) (*txwatcher.TxOutResp, error) {
+func (f *fakeRpc) GetTxOut(txid string, vout uint32) (*txwatcher.TxOutResp, error) {
 	f.mu.Lock()
+	if f.wantVout != nil && vout != *f.wantVout {
+		f.mu.Unlock()
+		return nil, nil
+	}
 	if f.byTx != nil {
 		h := f.byTx
 		f.mu.Unlock()
@@ -115,11 +122,12 @@ func (f *fakeRpc) GetRawtransactionWithBlockHash(_ string, blockHash string) (st
 }
 
 type watchRig struct {
-	rpc *fakeRpc
-	w   *txwatcher.BlockchainRpcTxWatcher
-	mu  sync.Mutex
-	cb  []string // confirmation callbacks: "ok" | "err:<text>"
-	csv []string
+	vout uint32 // index of the watched output (every other output of the transaction counts as spent)
+	rpc  *fakeRpc
+	w    *txwatcher.BlockchainRpcTxWatcher
+	mu   sync.Mutex
+	cb   []string // confirmation callbacks: "ok" | "err:<text>"
+	csv  []string
 }
 
 func newWatchRig(confs uint32) *watchRig {
@@ -149,7 +157,7 @@ func newWatchRig(confs uint32) *watchRig {
 func (r *watchRig) observeOnce(start, limit, last, height uint32, v rpcView) string {
 	// registration: the kick-off iteration reads the tip; make it a harmless "unconfirmed" at height `last`
 	r.rpc.set(rpcView{rpcHeight: uint64(last), txout: &txwatcher.TxOutResp{BestBlockHash: "match", Confirmations: 0}})
-	r.w.AddWaitForConfirmationTx("swap", "txid", 0, start, limit, nil)
+	r.w.AddWaitForConfirmationTx("swap", "txid", r.vout, start, limit, nil)
 	r.w.VerifNotify("swap", last) // barrier: the kick-off iteration is over (same height: ignored)
 	r.mu.Lock()
 	pre := len(r.cb)
@@ -289,7 +297,9 @@ func init() {
 				rig := newWatchRig(3)
 				// registered while not yet mature, then a block arrives
 				rig.rpc.set(rpcView{txout: &txwatcher.TxOutResp{Confirmations: 0}})
-				rig.w.AddWaitForCsvTx("swap", "txid", 0, 100, csv, nil)
+				rig.vout = uint32(r.intn(3))
+				rig.rpc.wantVout = &rig.vout
+				rig.w.AddWaitForCsvTx("swap", "txid", rig.vout, 100, csv, nil)
 				v := rpcView{txoutErr: te}
 				if txo != nil {
 					v.txout = &txwatcher.TxOutResp{Confirmations: *txo}
